@@ -235,8 +235,8 @@ class AgentSet(MutableSet, Sequence):
             for agent in self:
                 if count >= at_most:
                     break
-                if (not filter_func or filter_func(agent)) and (
-                    not agent_type or isinstance(agent, agent_type)
+                if (filter_func is None or filter_func(agent)) and (
+                    agent_type is None or isinstance(agent, agent_type)
                 ):
                     yield agent
                     count += 1
